@@ -53,7 +53,9 @@ ZONED = C.Kind("calc_duration_zoned", impl=_impl_zoned, model=lambda a: f"calcdu
                classify=lambda a, o: a[0], nontrivial=lambda a, o: (a[0], int(a[1] // 86400), a[2], a[3]),
                shrink=lambda a: [(a[0], a[1], a[2] // 2, a[3]), (a[0], a[1], a[2], a[3] // 2)] if min(a[2], a[3]) > 0 else [])
 
-KINDS = {"calc_duration": PAIR, "calc_duration_text": TEXT, "calc_duration_zoned": ZONED}
+import props.c10 as _c10  # noqa: E402  (the duration a LISTED schedule reports goes through the same rule)
+
+KINDS = {"calc_duration": PAIR, "calc_duration_text": TEXT, "calc_duration_zoned": ZONED, "get_schedules": _c10.LIST}
 
 
 def _zoned_cases(rng, per_zone_instants, pairs_per_instant):
@@ -102,6 +104,15 @@ def streams(ctx):
                           sample_every=40000)
     zc = _zoned_cases(rng, ctx.n(9, 40), ctx.n(40, 200))
     ctx.run_cases(ZONED, "zones-and-dates(DST days first)", zc, exhaustive=False, sample_every=max(1, len(zc) // 3))
+    # the duration reported for schedules listed by a device (timestamps with seconds, on hosts in several zones): it is the rule
+    # applied to the start and end shown, nothing else
+    lst = []
+    for zone in _c10.ZONES:
+        import zoneharness as Z
+        for now in Z.interesting_instants(rng, zone, ctx.n(6, 60)):
+            recs = _c10.gen_recs(rng, now)
+            lst.append({"zone": zone, "now": now, "recs": recs, "reply": _c10.build_reply(recs, rng)})
+    ctx.run_cases(_c10.LIST, "durations-of-listed-schedules", lst, exhaustive=False, sample_every=max(1, len(lst) // 2))
     ctx.run_cases(TEXT, "spellings-and-malformed", _texts(rng, ctx.n(2000, 20000)), exhaustive=False, sample_every=500)
 
 
